@@ -149,4 +149,7 @@ func init() {
 
 	mut("C06", "a failed digest write is ignored for gossiped operations", "aspen/internal/kv/filter_persist.go",
 		"			if err := op.Digest().apply(ctx, txn); err != nil {\n				return err\n			}", "			_ = op.Digest().apply(ctx, txn)", "C06.ERR")
+
+	mut("C06", "commitTo reports the result of Close instead of the failure", "aspen/internal/kv/tx.go",
+		"			err = errors.Combine(err, b.Close())", "			err = b.Close()", "C06.ERR")
 }
